@@ -217,9 +217,29 @@ def gen():
                     j += 1
                 if depth == 0 and ' = ' not in code[j:j + 4] and '=>' not in code[j:]:
                     add(path, i, l, l[:m.start()] + 'None' + l[j + 1:], 'some-to-none')
+    n2 = len(muts)
+    # ---- third generation: conditions replaced by constants (an if-block removed / made unconditional), match arms swapped
+    for path in FILES:
+        text = open(os.path.join(REPO, path)).read()
+        lines, idx = code_lines(text)
+        for i in idx:
+            l = lines[i]
+            m = re.match(r'^(\s*(?:\} else )?if )(?!let )(.*)( \{\s*)$', l)
+            if m and m.group(2) not in ('true', 'false'):
+                add(path, i, l, m.group(1) + 'true' + m.group(3), 'cond-true')
+                add(path, i, l, m.group(1) + 'false' + m.group(3), 'cond-false')
+            m = re.match(r'^(\s*while )(?!let )(.*)( \{\s*)$', l)
+            if m:
+                add(path, i, l, m.group(1) + 'false' + m.group(3), 'cond-false')
+            # `A => x,` followed by `B => y,`: results swapped
+            m1 = re.match(r'^(\s*)([^=]+?) => ([^{}]+),\s*$', l)
+            if m1 and i + 1 < len(lines):
+                m2 = re.match(r'^(\s*)([^=]+?) => ([^{}]+),\s*$', lines[i + 1])
+                if m2 and m1.group(3).strip() != m2.group(3).strip() and '//' not in l:
+                    add(path, i, l, '%s%s => %s,' % (m1.group(1), m1.group(2), m2.group(3).split(' //')[0].strip()), 'arm-result-of-next')
     os.makedirs(OUT, exist_ok=True)
     json.dump(muts, open(os.path.join(OUT, 'mutants.json'), 'w'), indent=0)
-    print('%d mutants (%d first generation)' % (len(muts), n1))
+    print('%d mutants (%d first generation, %d second)' % (len(muts), n1, n2 - n1))
 
 
 _tls = threading.local()
